@@ -119,6 +119,8 @@ package engine
 // ---- RelationManager: trusted interface contracts (what the engine relies on) ----
 
 //@ ghost var txn int
+//@ ghost var walFlushes int
+//@ ghost var rowsApplied int
 
 //@ iface (rm RelationManager) StartTxn()
 //@   props C13
@@ -146,8 +148,10 @@ package engine
 //@ iface (rm RelationManager) Insert(tableName string, cols []string, vals []interface{}) (storage.WALBatch, error)
 //@   trusted
 //@   requires txn == 1
-//@   modifies storeState
+//@   modifies storeState, rowsApplied
 //@   ensures result0 == nil || fresh(result0)
+//@   ensures err == nil ==> rowsApplied == old(rowsApplied) + 1
+//@   ensures err != nil ==> rowsApplied == old(rowsApplied)
 
 //@ iface (rm RelationManager) Update(tableName string, rowID uint32, cols []string, updateSrc []interface{}) (storage.WALBatch, error)
 //@   trusted
@@ -164,7 +168,9 @@ package engine
 //@ iface (rm RelationManager) FlushWALBatch(batch storage.WALBatch) error
 //@   trusted
 //@   requires txn == 1
-//@   modifies storeState
+//@   modifies storeState, walFlushes
+//@   ensures result == nil ==> walFlushes == old(walFlushes) + 1
+//@   ensures result != nil ==> walFlushes == old(walFlushes)
 
 //@ iface (rm RelationManager) CreateTable(r *storage.Relation, tableName string) error
 //@   trusted
@@ -334,24 +340,31 @@ package engine
 //@ func EvaluateInsert(q sql.InsertStatement, rm RelationManager) (int, error)
 //@   props C01 C02 C13 C14 C18
 //@   requires txn == 0 && nonNilPtr(rm) && typeof(q.InsertColumnsAndSource.QueryExpression) == typ(sql.TableValueConstructor)
-//@   modifies txn, storeState
+//@   modifies txn, storeState, walFlushes, rowsApplied
 //@   ensures[unlock; C13 C18] txn == 0
-//@   loop 1 invariant txn == 1 && (batch == nil || fresh(batch)) && count == rangeindex + 1
+//@   ensures[L4; C02] err == nil ==> walFlushes == old(walFlushes) + 1
+//@   ensures[err.nolog; C14] err != nil ==> walFlushes == old(walFlushes)
+//@   loop 1 invariant txn == 1 && (batch == nil || fresh(batch)) && count == rangeindex + 1 && rowsApplied == old(rowsApplied) + count
 //@   loop 1 decreases len(vals) - rangeindex
+//@   ensures[err.atomic; C14] err != nil ==> rowsApplied == old(rowsApplied)
 
 //@ func EvaluateDelete(q sql.DeleteStatementSearched, rm RelationManager) (int, error)
 //@   props C01 C02 C13 C14 C18
 //@   requires txn == 0 && nonNilPtr(rm) && (q.WhereClause == nil || typeof(q.WhereClause) == typ(sql.WhereClause))
-//@   modifies txn, storeState
+//@   modifies txn, storeState, walFlushes
 //@   ensures[unlock; C13 C18] txn == 0
+//@   ensures[L4; C02] err == nil ==> walFlushes == old(walFlushes) + 1
+//@   ensures[err.nolog; C14] err != nil ==> walFlushes == old(walFlushes)
 //@   loop 1 invariant txn == 1 && (batch == nil || fresh(batch))
 //@   loop 1 decreases len(rows) - rangeindex
 
 //@ func EvaluateUpdate(q sql.UpdateStatementSearched, rm RelationManager) error
 //@   props C01 C02 C13 C14 C18
 //@   requires txn == 0 && nonNilPtr(rm) && (q.Where == nil || typeof(q.Where) == typ(sql.WhereClause))
-//@   modifies txn, storeState
+//@   modifies txn, storeState, walFlushes
 //@   ensures[unlock; C13 C18] txn == 0
+//@   ensures[L4; C02] err == nil ==> walFlushes == old(walFlushes) + 1
+//@   ensures[err.nolog; C14] err != nil ==> walFlushes == old(walFlushes)
 //@   loop 1 invariant txn == 1
 //@   loop 2 invariant txn == 1 && (cols == nil || fresh(cols)) && (updateSrc == nil || fresh(updateSrc))
 //@   loop 3 invariant txn == 1 && (batch == nil || fresh(batch))
@@ -382,9 +395,10 @@ package engine
 //@ spec pred sessInv(s *Session) { (s.CurDB != "" ==> s.RelationService != nil) && openStores == (s.RelationService != nil ? 1 : 0) }
 
 //@ func (s *Session) ExecQuery(q string) error
-//@   props C17 C18 C13
+//@   props C17 C18 C13 C14
 //@   requires txn == 0 && sessInv(s)
-//@   modifies s.CurDB, s.RelationService, txn, storeState, openStores, listLen, listAt, listPos, listOf, all(storage.Row.Vals), all(storage.Field.Column), allelems(any), allelems(*storage.Row)
+//@   modifies s.CurDB, s.RelationService, txn, storeState, walFlushes, rowsApplied, openStores, listLen, listAt, listPos, listOf, all(storage.Row.Vals), all(storage.Field.Column), allelems(any), allelems(*storage.Row)
 //@   ensures[unlock; C13] txn == 0
 //@   ensures[inv; C17 C18] sessInv(s)
 //@   ensures[errorframe; C17] result != nil && openStores == old(openStores) ==> s.CurDB == old(s.CurDB) && s.RelationService == old(s.RelationService)
+//@   ensures[err.nolog; C14] result != nil ==> walFlushes == old(walFlushes)
